@@ -413,6 +413,19 @@ class Ctx:
         for n in ne:
             ne_names.add(str(n))
             ne_names.add(str(-n))
+        # casts whose operand is bounded by the guards on this path are the identity
+        for name in sorted(syms):
+            if name.startswith("cast<") and name in getattr(sy, "casts", {}):
+                p_c, (lo_c, hi_c) = sy.casts[name]
+                try:
+                    pr_c = Prover(list(ge), self.box(list(ge) + [p_c]))
+                    ok1, _ = pr_c.prove_ge0(p_c - Poly.const(lo_c))
+                    ok2, _ = pr_c.prove_ge0(Poly.const(hi_c) - p_c)
+                except Exception:
+                    ok1 = ok2 = False
+                if ok1 and ok2:
+                    add(Poly.sym(name) - p_c)
+                    add(p_c - Poly.sym(name))
         for name in sorted(syms):
             # truncated division: P = k*div + rem
             if name in sy.divrem:
@@ -466,6 +479,24 @@ class Ctx:
                 ln = self.len_sym(m.group(1))
                 add(ln - Poly.const(1) - Poly.sym(name))
                 add(Poly.sym(name))
+            if name.startswith("(Iterator::position(") or name.startswith("(Iterator::rposition("):
+                # structural: the index found in s[lo..hi] (any spelling of the sub-sequence) is < hi - lo and < len(s) - lo
+                tq_ = sy.sym_terms.get(name)
+                if tq_ is not None:
+                    xq_ = unmut(tq_)
+                    if xq_[0] == "field" and xq_[2] == 0 and unmut(xq_[1])[0] == "downcast":
+                        cq_ = unmut(unmut(xq_[1])[1])
+                        if cq_[0] == "call" and short(cq_[1]) in ("Iterator::position", "Iterator::rposition") and len(cq_[2]) == 2:
+                            from . import quant as _quant
+                            psq = _quant.parse_seq(self.prog, self.an, sy, cq_[2][0])
+                            if psq is not None and not psq[4]:
+                                base_q, lo_q, hi_q = psq[0], psq[1], psq[2]
+                                lnq = seq_len_poly(self, base_q)
+                                if lnq is not None:
+                                    add(lnq - lo_q - Poly.const(1) - Poly.sym(name))
+                                if hi_q is not None:
+                                    add(hi_q - lo_q - Poly.const(1) - Poly.sym(name))
+                                add(Poly.sym(name))
             m = re.match(r"^\(Iterator::position\(mut\((.*)\),.*\) as Some\)\.0$", name)
             if m:
                 it = m.group(1)
@@ -556,6 +587,27 @@ class Ctx:
                 m = re.match(r"^Iterator::position\(mut\(Iterator::enumerate\(<impl \[T\]>::iter\((.*)\)\)\),\|x\| (.*) Ne x\.0\)$", a[1])
                 if m and re.match(r"^x\.1\.\d+$", m.group(2)):
                     add(Poly.const(1 << 16) - self.len_sym(m.group(1)))
+        # the same dense-index fact in any spelling (position / all / a checking loop): normal form of agvlib.quant
+        if bb is not None and self._path is None:
+            if not hasattr(self, "_qfacts"):
+                self._qfacts = {}
+            if bb not in self._qfacts:
+                try:
+                    from . import quant as _quant
+                    self._qfacts[bb] = _quant.forall_facts(self.prog, self.an, sy, bb)
+                except Exception:
+                    self._qfacts[bb] = []
+            for f_ in self._qfacts[bb]:
+                if f_.enum and f_.seq[1] == "0" and f_.seq[2] is None and len(f_.atoms) == 1:
+                    a_ = next(iter(f_.atoms))
+                    m = re.match(r"^(?:i - (x\.\d+)|-i \+ (x\.\d+)) == 0$", a_)
+                    if m:
+                        # every index equals a field of its element: the field's type bounds the length
+                        fld = int((m.group(1) or m.group(2)).split(".")[1])
+                        hi_ = self.elem_field_hi(f_.seq[0], fld)
+                        ln_ = seq_len_poly(self, f_.base) if f_.base is not None else None
+                        if hi_ is not None and ln_ is not None:
+                            add(Poly.const(hi_ + 1) - ln_)
         # emptiness predicates
         for a in other:
             if a[0] == "pred" and a[2] is False:
@@ -567,6 +619,29 @@ class Ctx:
                 if m:
                     add(-self.len_sym(m.group(1)))
         return out
+
+    def elem_field_hi(self, seq_name, fld):
+        """largest value of integer field `fld` of the elements of the sequence named seq_name (from its type)"""
+        for l, loc in enumerate(self.body.locals):
+            if l == 0 or l > self.body.argc:
+                continue
+            if "arg%d" % l != seq_name:
+                continue
+            ty = loc["ty"]
+            while ty.get("k") == "ref":
+                ty = ty["t"]
+            ety = None
+            if ty.get("k") == "adt" and ty.get("a"):
+                ety = ty["a"][0]
+            elif ty.get("k") in ("slice", "array"):
+                ety = ty.get("t")
+            if ety and ety.get("k") == "adt":
+                a = self.prog.adts.get(ety["p"])
+                if a and a["kind"] == "struct" and fld < len(a["variants"][0]["fields"]):
+                    fty = a["variants"][0]["fields"][fld].get("ty")
+                    if fty and fty.get("k") == "int" and not fty.get("s"):
+                        return (1 << fty["w"]) - 1
+        return None
 
     def position_or_default(self, name, ge, other):
         """U = S.iter().position(pred).unwrap_or(D):  lo <= U <= len(S)-1 when D lies in that range, where lo = 1 if
